@@ -706,7 +706,7 @@ def foreign_scenarios(rng, count, wellformed_only=False):
         mode = c % 4
         puts = []
         if mode == 0 and not wellformed_only:
-            kind = ['torn', 'empty', 'absent'][int(rng.integers(0, 3))]
+            kind = ['torn', 'empty', 'torn', 'absent'][(c // 4) % 4]
             puts = [{'kind': kind, 'frac': float(rng.choice([0.01, 0.3, 0.6, 0.99]))}]
             tag = f'put:{kind}'
         else:
@@ -997,6 +997,13 @@ def oracle(ctx, deep=False, broken=None):
             size = len(json.dumps(inp))
             if ks not in best or size < best[ks][0]:
                 best[ks] = (size, {'input': inp, 'observed': f"{v['kind']}: {v['msg']}", 'match': key})
+    # violations seen by the judge during the real-process stream of the thorough tier
+    for sc, v in getattr(ctx, 'c12_sub_viol', []):
+        key = {'kind': v['kind'], 'fmt': sc['fmt'], 'real_process': True}
+        ks = json.dumps(key, sort_keys=True)
+        if ks not in best:
+            best[ks] = (10 ** 9, {'input': dict(public(sc), real_process=True),
+                                  'observed': f"{v['kind']}: {v['msg']}", 'match': key})
     fails = [best[k][1] for k in sorted(best, key=lambda k: best[k][0])]
     return fails, {'evaluations': len(scs), 'harness_exceptions': nerr,
                    'processes': sum(len(sc['rounds']) for sc in scs)}
@@ -1004,8 +1011,273 @@ def oracle(ctx, deep=False, broken=None):
 
 def replay(ctx, payload):
     import panqec.simulation  # noqa: F401
-    return bool(check_scenario(copy.deepcopy(payload['input'])))
+    sc = copy.deepcopy(payload['input'])
+    if sc.pop('real_process', False):
+        return bool(_sub_worker(sc)['viol'])
+    return bool(check_scenario(sc))
+
+
+# ------------------------------------------------- real processes, real kills (thorough tier)
+
+class _Proxy:
+    """real (buffered) file object with the write/close boundary observed"""
+
+    def __init__(self, real, act, k, child):
+        self._real, self._act, self._k, self._child = real, act, k, child
+        self._writes = 0
+
+    def __getattr__(self, name):
+        return getattr(self._real, name)
+
+    def __enter__(self):
+        return self
+
+    def __exit__(self, *a):
+        self.close()
+        return False
+
+    def write(self, b):
+        r = self._real.write(b)
+        self._writes += 1
+        act = self._act
+        if self._writes == 1 and act in ('killw:header', 'killw:middle', 'killw:last'):
+            self._real.flush()
+            self._child.die([f'A{self._k}', 'T', 'T', 'X'])
+        if self._writes == 1 and act == 'kiw':
+            self._act = None
+            self._child.events += [f'A{self._k}', 'T', 'T', 'K']
+            self._child.interrupt()
+        return r
+
+    def close(self):
+        if self._act == 'killw:all' and not self._real.closed:
+            self._real.flush()
+            self._child.die([f'A{self._k}', 'T', 'T', 'T', 'X'])
+        return self._real.close()
+
+
+class _Child:
+    def __init__(self, args):
+        self.args = args
+        self.plan = sorted([list(a) for a in args['plan']], key=lambda a: a[0])
+        self.count = 0
+        self.events = []
+        self.fired = []
+        self.trace = []
+        self.log = {}
+        self.next_id = args['next_id']
+        self.real_open = builtins.open
+        self.dir = args['dir']
+
+    def side(self, outcome, mem='-', exc=''):
+        with self.real_open(self.args['side'], 'w') as f:
+            json.dump({'events': self.events, 'outcome': outcome, 'mem': mem, 'exc': exc, 'fired': self.fired,
+                       'trace': ''.join(self.trace), 'next_id': self.next_id,
+                       'log': {str(k): v for k, v in self.log.items()}}, f)
+
+    def die(self, events):
+        self.events += events
+        self.side('killed')
+        os._exit(137)
+
+    def interrupt(self):
+        import signal
+        signal.raise_signal(signal.SIGINT)      # a real SIGINT: KeyboardInterrupt is raised here
+
+    def applicable(self, act, kind):
+        if act == 'kiw':
+            return kind == 'o' and self.args['fmt'] == 'json'
+        if act.startswith('killw:'):
+            return kind == 'o'
+        if act == 'killafter':
+            return kind == 'r'
+        return True
+
+    def hook(self, kind):
+        act = None
+        if self.plan and self.plan[0][0] == self.count:
+            act = self.plan.pop(0)[1]
+        k = self.count
+        if act in ('kill', 'ki') or (act is not None and not self.applicable(act, kind)):
+            entry = 'ki' if act in ('ki', 'kiw') else 'kill'
+            self.fired.append({'hook': k, 'type': kind, 'action': entry})
+            if entry == 'ki':
+                self.events += [f'A{k}', 'K']
+                self.interrupt()
+            self.die([f'A{k}', 'X'])
+        self.count += 1
+        self.trace.append(kind)
+        if act is not None:
+            self.fired.append({'hook': k, 'type': kind, 'action': act})
+        return act, k
+
+    def in_dir(self, p):
+        try:
+            p = os.fspath(p)
+        except TypeError:
+            return False
+        return isinstance(p, str) and os.path.dirname(os.path.abspath(p)) == self.dir
+
+    def run(self):
+        import numpy as np
+        from panqec.simulation import read_input_dict
+        import panqec.simulation._direct_simulation as ds
+        a = self.args
+        real_replace = os.replace
+        real_run_once = ds.run_once
+
+        def my_open(file, mode='r', *x, **kw):
+            if self.in_dir(file) and ('w' in mode or 'a' in mode or '+' in mode):
+                act, k = self.hook('o')
+                real = self.real_open(file, mode, *x, **kw)
+                if act == 'killw:zero':
+                    self.die([f'A{k}', 'T', 'X'])
+                return _Proxy(real, act, k, self)
+            return self.real_open(file, mode, *x, **kw)
+
+        def my_replace(src, dst, *x, **kw):
+            if self.in_dir(dst):
+                act, k = self.hook('r')
+                real_replace(src, dst, *x, **kw)
+                if act == 'killafter':
+                    self.die([f'A{k}', 'T', 'X'])
+                return None
+            return real_replace(src, dst, *x, **kw)
+
+        def my_run_once(code, error_model, decoder, error_rate, rng=None):
+            self.hook('t')
+            res = real_run_once(code, error_model, decoder, error_rate, rng=rng)
+            tid = self.next_id
+            self.next_id += 1
+            key = (code.id, code.size[0], code.size[1], tuple(float(x) for x in error_model.direction),
+                   decoder.id, error_rate)
+            self.log[tid] = {'entry': KEY2ID.get(key, 999), 'ee': [int(x) for x in res['effective_error']],
+                             'su': bool(res['success']), 'cs': bool(res['codespace'])}
+            res = dict(res)
+            res['effective_error'] = np.append(np.asarray(res['effective_error']).astype('int64'), tid)
+            return res
+
+        buf = io.StringIO()
+        outcome, exc_text, bs = None, '', None
+        with contextlib.redirect_stdout(buf):
+            bs = read_input_dict(copy.deepcopy(spec_dict(a['spec'], a.get('via', 'runs'))), a['out'],
+                                 verbose=False, save_frequency=a['sf'])
+            for j, sim in enumerate(bs._simulations):
+                sim.rng = np.random.default_rng([a.get('seed', 0), a['round'], j])
+            builtins.open = my_open
+            os.replace = my_replace
+            ds.run_once = my_run_once
+            try:
+                bs.run(a['n'])
+                outcome = 'paused' if 'Simulation paused' in buf.getvalue() else 'done'
+            except KeyboardInterrupt:
+                outcome = 'EXC:KeyboardInterrupt'
+            except Exception as e:  # noqa: BLE001
+                name = type(e).__name__
+                exc_text = f'{name}: {e}'
+                outcome = 'failed:emptySpec' if (name == 'ValueError' and not a['spec']) else \
+                    OUTCOME_EXC.get(name, f'EXC:{name}')
+            finally:
+                builtins.open = self.real_open
+                os.replace = real_replace
+                ds.run_once = real_run_once
+        if outcome in ('failed:eof', 'failed:emptySpec'):
+            mem = '_'
+        else:
+            mem = '|'.join(show_rec(ident(s._inputs), s._results, True) for s in bs._simulations) or '_'
+        self.side(outcome, mem, exc_text)
+
+
+def run_scenario_subprocess(sc, judge=None):
+    """like run_scenario, but every process is a real Python process and a kill is os._exit"""
+    sc = dict(sc)
+    new_scenario_state(sc)
+    side_dir = tempfile.mkdtemp(prefix='c12side_')
+    try:
+        tokens, snaps, infos = [], [], []
+        st = sc['state']
+        for rnd in sc['rounds']:
+            st['round'] += 1
+            for put in rnd.get('puts', []):
+                tokens.append(write_put(sc, put))
+            if rnd.get('puts'):
+                st['after_puts'] = read_doc(sc['out'])
+            spec = list(rnd['spec'])
+            tokens.append(f"S:{rnd['n']}:{rnd['sf']}:{','.join(map(str, spec)) if spec else '-'}")
+            side = os.path.join(side_dir, f'side{st["round"]}.json')
+            argf = os.path.join(side_dir, f'args{st["round"]}.json')
+            with open(argf, 'w') as f:
+                json.dump({'dir': sc['dir'], 'out': sc['out'], 'fmt': sc['fmt'], 'spec': spec, 'n': rnd['n'],
+                           'sf': rnd['sf'], 'via': rnd.get('via', 'runs'), 'seed': sc.get('seed', 0),
+                           'round': st['round'], 'next_id': st['next_id'], 'plan': rnd.get('plan', []),
+                           'side': side}, f)
+            p = subprocess.run([sys.executable, '-m', 'harness.props.c12', 'child', argf],
+                               capture_output=True, text=True, timeout=300)
+            if not os.path.exists(side):
+                raise RuntimeError(f'child left no report rc={p.returncode}: {p.stderr[-800:]}')
+            rep = json.load(open(side))
+            if p.returncode == 137:
+                rep['outcome'] = 'killed'
+                rep['mem'] = '-'
+            st['next_id'] = rep['next_id']
+            for k, v in rep['log'].items():
+                st['log'][int(k)] = v
+            tokens += rep['events']
+            if rep['outcome'] != 'killed':
+                tokens.append('R')
+            tokens.append('o')
+            snaps.append(f"file={show_file(sc['out'])} tmp=? pc={rep['outcome']} mem={rep['mem']}")
+            info = {'outcome': rep['outcome'], 'exc': rep['exc'], 'fired': rep['fired'], 'trace': rep['trace'],
+                    'spec': spec, 'n': rnd['n'], 'sf': rnd['sf']}
+            infos.append(info)
+            if judge is not None:
+                judge(sc, rnd, info)
+        op = f"batch {'g' if sc['fmt'] == 'gz' else 'j'} 1 " + ' '.join(tokens)
+        return op, ' ; '.join(snaps), infos
+    finally:
+        shutil.rmtree(sc['dir'], ignore_errors=True)
+        shutil.rmtree(side_dir, ignore_errors=True)
+
+
+def _sub_worker(sc):
+    try:
+        viol = []
+        op, impl, infos = run_scenario_subprocess(sc, judge=Judge(viol))
+        return {'op': op, 'impl': impl, 'infos': infos, 'viol': viol, 'err': None}
+    except BaseException as e:  # noqa: BLE001
+        import traceback
+        return {'op': 'batch j 1 o', 'impl': f'HARNESS-EXC {type(e).__name__}: {e}', 'infos': [], 'viol': [],
+                'err': traceback.format_exc()[-1500:]}
+
+
+def subprocess_scenarios(rng, count):
+    scs = []
+    for fmt in ('json', 'gz'):
+        base = {'spec': [0, 4], 'n': 3, 'sf': 2}
+        rs = [[{'spec': [0, 4, 2], 'n': 4, 'sf': 1}]]
+        scs += systematic(rng, fmt, base, rs, subsample=count // 2)
+    for sc in scs:
+        sc['tag'] = 'subprocess:' + sc['tag']
+    return scs
 
 
 def subprocess_stream(ctx, rng):
-    return Stream('subprocess-real-kill')
+    from concurrent.futures import ThreadPoolExecutor
+    scs = subprocess_scenarios(rng, 64)
+    with ThreadPoolExecutor(8) as ex:
+        res = list(ex.map(_sub_worker, scs))
+    s = Stream('subprocess-real-kill')
+    for sc, r in zip(scs, res):
+        if r['err']:
+            ctx.notes.append('subprocess harness exception: ' + r['err'][-300:])
+        s.add(r['op'], r['impl'], public(sc), nontrivial=True, tag=sc.get('tag'))
+        for info in r['infos']:
+            o = 'outcome:' + info['outcome']
+            s.hist[o] = s.hist.get(o, 0) + 1
+        ctx.c12_sub_viol = getattr(ctx, 'c12_sub_viol', []) + [(sc, v) for v in r['viol']]
+    return s.run()
+
+
+if __name__ == '__main__':
+    if len(sys.argv) == 3 and sys.argv[1] == 'child':
+        _Child(json.load(open(sys.argv[2]))).run()
